@@ -46,7 +46,7 @@ func (P) Describe() harness.Description {
 		MustHit: []string{"blocked_probe_handed_the_breaker_back", "straggler_from_the_closed_period_in_flight", "window_counts_checked_after_concurrent_rollover", "half_open_timing_checked", "probe_exclusivity_checked", "open_period_checked", "transition_overlaps_other_caller"},
 		Level:   "exploration",
 		Rule: "case = (one breaker of any strategy with small minimum amount and retry timeout, sequential prelude leaving it fresh / near trip / open just before its deadline / half-open with a held probe; 2-3 callers with 1-4 Entry / complete operations each; tick plan around the retry timeout). The scheduler interleaves at every atomic access of TryPass, OnRequestComplete and the transition helpers. " +
-			"History oracles stamped with event sequence numbers: (a) the multiset of listener events is a legal path from the prelude state to the final state (each transition once, correct previous state); (b) every Open->HalfOpen happens >= retry timeout after the invocation of the earliest call that could have opened the breaker for that open period; (c) with no probe number, after a passage to half-open no other request invoked afterwards is admitted and returns before the call that emits the next transition is invoked; (d) no request other than the probe is admitted wholly inside a certainly-open period; (g) after a HalfOpen->Closed an error-count breaker (threshold >= 2) opens again only if at least threshold failed completions were not over before the closing call began and were invoked before the opening was reported. " +
+			"History oracles stamped with event sequence numbers: (a) the multiset of listener events is a legal path from the prelude state to the final state (each transition once, correct previous state); (b) every Open->HalfOpen happens >= retry timeout after the invocation of the earliest call that could have opened the breaker for that open period; (c) with no probe number, after a passage to half-open no other request invoked afterwards is admitted and returns before the call that emits the next transition is invoked; (d) no request other than the probe is admitted wholly inside a certainly-open period; (h) with a probe number N a passage to half-open (roll-backs of blocked probes do not end it) is closed only when N successful completions can belong to it; (i) a closed error-count breaker at quiescence has not seen its threshold in failures invoked after the last close inside the final window; (g) after a HalfOpen->Closed an error-count breaker (threshold >= 2) opens again only if at least threshold failed completions were not over before the closing call began and were invoked before the opening was reported. " +
 			"non-trivial = at least one transition happened while another caller was inside an operation; distinct = hash(config, ops, schedule)",
 		Assumptions: []string{"one breaker on the resource; the probe roll-back path is driven by a scripted rule-check slot behind the breaker slot (35 % of the cases)", "a probe blocked behind the breaker returns it to the open period it interrupted (retry timeout not renewed): a request probing right after that is not a violation", "facts are used as premises only when certain from invoke/return order; overlapping cases are skipped, never guessed", "the final state is read through the overlay-only accessor circuitbreaker.VerifBreakersOf"},
 		Real:        []string{"api.Entry/TraceError/Exit", "core/circuitbreaker (slot, stat slot, breakers, listeners)", "core/stat/base.LeapArray"},
@@ -580,6 +580,82 @@ func (P) Exec(c *harness.Case) *harness.Outcome {
 			}
 			if float64(n) < r.Threshold {
 				o.Fail("C12.opened-on-the-count-of-an-earlier-period", int(e.seq), "error-count breaker, threshold %v: the breaker was closed (seq %d, statistics cleared) and opened again (seq %d, by caller %d) although at most %d failed completion(s) can have been counted in between - the caller examined the breaker in an earlier closed period and opened this one with that period's count. Transitions %v", r.Threshold, closed.seq, e.seq, e.task, n, fmtEvents(evs))
+				return o
+			}
+		}
+	}
+	// (h) with a probe number N, a passage to half-open is closed by N successful completions of its own: the ones
+	// that were not over before the passage began and were invoked before the close was reported
+	if r.ProbeNum >= 1 {
+		for i, e := range evs {
+			if !(e.from == model.HalfOpen && e.to == model.Closed) {
+				continue
+			}
+			// (a blocked probe hands its passage back without having failed: the passages before and after such a
+			// roll-back are one period as far as the count of successful probes goes)
+			var began *levent
+			unknown := false
+			for j := i - 1; j >= 0; j-- {
+				h := evs[j]
+				if h.from == model.Open && h.to == model.HalfOpen {
+					began = h
+					continue
+				}
+				if h.rollback() {
+					began = nil
+					continue
+				}
+				break
+			}
+			if began == nil {
+				unknown = true // (the passage the prelude left: what it had seen before is not known here)
+			}
+			if unknown {
+				continue
+			}
+			o.Probe("closing_of_a_passage_with_probe_number_judged")
+			n := uint64(0)
+			for _, c := range all {
+				if c.kind == "complete" && !c.bad && !c.handback && c.inv < e.seq && (!c.done || c.ret > began.seq) {
+					n++
+				}
+			}
+			if n < r.ProbeNum {
+				o.Fail("C12.closed-by-fewer-probes-than-required", int(e.seq), "probe number %d: the passage to half-open that began at seq %d was closed at seq %d (by caller %d) although at most %d successful completion(s) can belong to it - a successful probe of an EARLIER passage was counted for this one. Transitions %v", r.ProbeNum, began.seq, e.seq, e.task, n, fmtEvents(evs))
+				return o
+			}
+		}
+	}
+	// (i) at quiescence a closed error-count breaker has not seen its threshold: failed completions invoked after
+	// the last close was reported were all counted after the clearing, and the window is longer than the run
+	if r.Strategy == model.ErrCount && !cfg.Counting && final == model.Closed && r.StatMs >= 10000 {
+		var last *levent
+		for _, e := range evs {
+			if e.to == model.Closed {
+				last = e
+			} else if e.from == model.Closed {
+				last = nil
+			}
+		}
+		if last != nil {
+			// (only what lies in the aligned window the run ends in: the window is long, but a run can cross its end)
+			endT := uint64(0)
+			for _, c := range all {
+				if c.done && c.tRet > endT {
+					endT = c.tRet
+				}
+			}
+			bad, total := 0, uint64(0)
+			for _, c := range all {
+				if c.kind == "complete" && !c.handback && c.done && c.inv > last.seq && c.tInv/r.StatMs == endT/r.StatMs && c.tRet/r.StatMs == endT/r.StatMs {
+					total++
+					if c.bad {
+						bad++
+					}
+				}
+			}
+			if float64(bad) >= math.Ceil(r.Threshold) && r.Threshold >= 1 && total >= r.MinReq {
+				o.Fail("C12.threshold-reached-in-a-closed-period-without-opening", 0, "error-count breaker, threshold %v, minimum %d requests: after the close reported at seq %d, %d completion(s) were invoked and finished, %d of them failed, and the breaker is still closed - failures of the new closed period were erased (a second clearing by a probe that did not close)? Transitions %v", r.Threshold, r.MinReq, last.seq, total, bad, fmtEvents(evs))
 				return o
 			}
 		}
